@@ -37,7 +37,20 @@ impl Names {
 /// last segment of a class name after `/` and `$`
 pub fn last_segment(c: &str) -> &str { c.rsplit(['/', '$']).next().unwrap_or(c) }
 
-pub struct RowCfg { pub max_rows: usize, pub all_apply: bool, pub absent_rows: bool }
+/// order of the rows in the table text (name construction must not depend on it)
+#[derive(Clone, Copy, Debug, PartialEq, Eq)]
+pub enum RowOrder { DeepestFirst, DeepestLast, Shuffled }
+impl RowOrder {
+    pub fn name(self) -> &'static str { match self { RowOrder::DeepestFirst => "deepest_first", RowOrder::DeepestLast => "deepest_last", RowOrder::Shuffled => "shuffled" } }
+    pub fn pick(rng: &mut Rng) -> RowOrder { match rng.below(3) { 0 => RowOrder::DeepestFirst, 1 => RowOrder::DeepestLast, _ => RowOrder::Shuffled } }
+}
+
+/// `deep = Some(d)`: `present[1..=d]` form ONE chain (`present[i]` is nested in `present[i-1]`), kinds mixed along it;
+/// needs `present.len() > d`. The remaining classes get ordinary rows.
+pub struct RowCfg { pub max_rows: usize, pub all_apply: bool, pub absent_rows: bool, pub deep: Option<usize>, pub order: RowOrder }
+
+/// anonymous numbers around every integer-width boundary (all positive and <= i32::MAX: they apply)
+pub const ANON_BOUNDARY: &[&str] = &["127", "128", "255", "256", "32767", "32768", "65535", "65536", "16777215", "16777216", "2147483646", "2147483647", "007", "0001", "010", "00065536"];
 
 /// Builds the rows of a table for the classes `present` (acyclic by construction: the enclosing class of a row for
 /// `present[i]` is `present[j]` with `j < i`, or a class that is not in the jar and has no row).
@@ -45,9 +58,11 @@ pub fn gen_rows(rng: &mut Rng, names: &mut Names, present: &[String], methods: &
     let n = present.len();
     let mut rows: Vec<Row> = vec![];
     if n < 2 { return rows; }
-    let want = rng.usize_in(1, cfg.max_rows.min(n - 1));
-    let mut idx: Vec<usize> = (1..n).collect();
-    rng.shuffle(&mut idx); idx.truncate(want); idx.sort();
+    let deep = cfg.deep.filter(|d| *d < n).unwrap_or(0);
+    let mut idx: Vec<usize> = (deep + 1..n).collect();
+    if !idx.is_empty() { let want = rng.usize_in(if deep > 0 { 0 } else { 1 }, cfg.max_rows.min(idx.len())); rng.shuffle(&mut idx); idx.truncate(want); }
+    idx.extend(1..=deep);
+    idx.sort();
     let mut nested: Vec<usize> = vec![];
     let mut anon_ctr: BTreeMap<String, u32> = BTreeMap::new();
     let flag_bits = [0x0001u16, 0x0002, 0x0004, 0x0008, 0x0010, 0x0200, 0x0400, 0x1000, 0x2000, 0x4000];
@@ -55,7 +70,8 @@ pub fn gen_rows(rng: &mut Rng, names: &mut Names, present: &[String], methods: &
         let class = present[i].clone();
         // enclosing class
         let pre_outer = class.rsplit_once('$').map(|(o, _)| o.to_string()).filter(|o| present[..i].contains(o));
-        let (encl, encl_present) = if let (Some(o), true) = (&pre_outer, rng.chance(1, 2)) { (o.clone(), true) }
+        let (encl, encl_present) = if i <= deep { (present[i - 1].clone(), true) }
+            else if let (Some(o), true) = (&pre_outer, rng.chance(1, 2)) { (o.clone(), true) }
             else if rng.chance(1, 7) { (names.top(rng), false) }
             else {
                 let lower: Vec<usize> = nested.iter().copied().filter(|&j| j < i).collect();
@@ -66,7 +82,7 @@ pub fn gen_rows(rng: &mut Rng, names: &mut Names, present: &[String], methods: &
         let seg = last_segment(&class).to_string();
         let seg_ok = !seg.is_empty() && !seg.chars().next().is_some_and(|c| c.is_ascii_digit());
         let mut kind = match rng.below(10) { 0..=3 => Kind::Inner, 4..=6 => Kind::Anonymous, _ => Kind::Local };
-        let want_apply = cfg.all_apply || rng.chance(3, 4);
+        let want_apply = cfg.all_apply || if i <= deep { rng.chance(24, 25) } else { rng.chance(3, 4) };
         if kind == Kind::Local && want_apply && declared.is_empty() { kind = if rng.bool() { Kind::Inner } else { Kind::Anonymous }; }
         let word = |rng: &mut Rng, names: &mut Names| -> String {
             if seg_ok && rng.chance(3, 5) { seg.clone() } else { format!("{}{}", rng.pick(CUSTOM), names.n()) }
@@ -77,7 +93,7 @@ pub fn gen_rows(rng: &mut Rng, names: &mut Names, present: &[String], methods: &
             Kind::Anonymous => {
                 if want_apply {
                     if seg.chars().all(|c| c.is_ascii_digit()) && !seg.is_empty() && anonymous_number(&seg).is_some_and(|v| v >= 1 && v <= i32::MAX as u64) && rng.chance(1, 2) { seg.clone() }
-                    else if rng.chance(1, 12) { (*rng.pick(&["2147483647", "007", "0001", "010"])).to_string() }
+                    else if rng.chance(1, 5) { (*rng.pick(ANON_BOUNDARY)).to_string() }
                     else { let c = anon_ctr.entry(encl.clone()).or_insert(0); *c += 1; c.to_string() }
                 } else { (*rng.pick(&["0", "00", "000"])).to_string() }
             }
@@ -108,6 +124,11 @@ pub fn gen_rows(rng: &mut Rng, names: &mut Names, present: &[String], methods: &
         }
     }
     rng.shuffle(&mut rows);
+    if cfg.order != RowOrder::Shuffled {
+        let depth: BTreeMap<String, usize> = { let all: Vec<&Row> = rows.iter().collect(); rows.iter().map(|r| (r.class.clone(), chain_depth(r, &all))).collect() };
+        rows.sort_by_key(|r| depth[&r.class]);      // stable: ties keep their shuffled order
+        if cfg.order == RowOrder::DeepestFirst { rows.reverse(); }
+    }
     rows
 }
 
